@@ -142,6 +142,7 @@ class QueryJudge:
 
 
 def mentions_flatten(case):
+    case = case.get('explicit', case)          # operand / predicate-form cases: look at the explicit twin
     return any(surface.cond_flats(c) for c in (case.get('cond') or []))
 
 
